@@ -6,8 +6,8 @@ open LeaspyVerif LeaspyVerif.Proto LeaspyVerif.Bench
 requests (one line = one individual's complete history)
   const pt=<last|last-known|max|mean> nf=<n> drop=<0|1> v=<age:x,x,…;age:x,…|_> t=<q,…|_>
         → ip=<x,…> traj=<x,…;x,…|_>          | err:raise            (x = rational or `nan`)
-  lme slope=<0|1> mean=<q> std=<q> fe=<q,q> cinv=<q,q,q,q> v=<age:x;age:x;…|_> t=<q,…|_>
-        → re=<q[,q]> traj=<q,…|_>             | err:nonfinite
+  lme slope=<0|1> mean=<q> std=<q> fe=<q,q> cinv=<q,q,q,q> v=<age:x;age:x;…|_> [t=<q,…|_>]
+        → re=<q[,q]> [traj=<q,…>|traj=err]    | err:nonfinite     (no `t=`: random effects only)
   lme1 cinv=<q> zr=<z:r;z:r;…|_>              → re=<q> | err:nonfinite      (one-column generic formula)
 -/
 
@@ -65,7 +65,9 @@ def handle (line : String) : String :=
       let fe ← (kv args "fe") >>= parseList parseRat
       let ci ← (kv args "cinv") >>= parseList parseRat
       let vs ← (kv args "v") >>= fun s => parseList parseVisit s ";"
-      let ts ← (kv args "t") >>= parseList parseRat
+      let ts ← match kv args "t" with
+        | none => some none
+        | some s => some <$> parseList parseRat s
       match fe, ci with
       | [f0, f1], [c00, c01, c10, c11] =>
         let p : LmeParams := ⟨m, sd, f0, f1⟩
@@ -77,9 +79,12 @@ def handle (line : String) : String :=
             match lmeRandomEffects p slope ⟨c00, c01, c10, c11⟩ c with
             | none => some "err:nonfinite"
             | some re =>
-              match lmeTraj p slope re ts with
-              | none => some "err:nonfinite"
-              | some tr => some s!"re={fmtList fmtRat re} traj={fmtList fmtRat tr}"
+              match ts with
+              | none => some s!"re={fmtList fmtRat re}"
+              | some ts =>
+                match lmeTraj p slope re ts with
+                | none => some s!"re={fmtList fmtRat re} traj=err"
+                | some tr => some s!"re={fmtList fmtRat re} traj={fmtList fmtRat tr}"
       | _, _ => none).getD "bad-request"
   | "lme1" :: args =>
     (do
